@@ -479,6 +479,28 @@ pub fn replay_file(path: &str, prop: &str, max_report: usize) -> Result<ReplaySt
                 st.kf_samples.entry(key).or_insert_with(|| json!({"case": case.to_json(), "real": rp}));
             }
             (best, assert_fail) => {
+                // a failed real-only assertion may be the visible face of a known defect: if the FULL
+                // observation equals that of a defect-branch behaviour, report the sites and let the
+                // driver decide (known finding of this property or not)
+                if assert_fail.is_some() && best.is_some() {
+                    let rfull = proj("ALL", &case.mode, &rj);
+                    let mut expl: Option<Vec<String>> = None;
+                    for b in behs {
+                        let mut m = b["res"].clone();
+                        m["obs"] = b["obs"].clone();
+                        let kf: Vec<String> = b["kf"].as_array().map(|a| a.iter().map(|x| x.as_str().unwrap_or("").to_string()).collect()).unwrap_or_default();
+                        if !kf.is_empty() && proj("ALL", &case.mode, &m) == rfull && expl.as_ref().map_or(true, |x| kf.len() < x.len()) {
+                            expl = Some(kf);
+                        }
+                    }
+                    if let Some(mut kf) = expl {
+                        kf.sort();
+                        let key = kf.join(",");
+                        *st.kf.entry(key.clone()).or_default() += 1;
+                        st.kf_samples.entry(key).or_insert_with(|| json!({"case": case.to_json(), "real": rp, "assertion": assert_fail}));
+                        continue;
+                    }
+                }
                 st.n_mismatch += 1;
                 if st.mismatches.len() < max_report {
                     let models: Vec<J> = behs
